@@ -91,12 +91,33 @@ def _load_corpus(pid):
     return out
 
 
+def _with_deadline(fn, arg, seconds):
+    """call fn(arg) under a wall-clock deadline: a changed tree that loops forever on a valid input must end
+    as a failing input with a replay, not hang the check.  Property modules with their own, tighter watchdog
+    (C06, C17, C19) arm the same timer inside; this outer one is generous."""
+    import signal
+    import threading
+    if not seconds or threading.current_thread() is not threading.main_thread():
+        return fn(arg)
+
+    def on_alarm(sig, frm):
+        raise TimeoutError(f"implementation did not return within {seconds} s")
+    old = signal.signal(signal.SIGALRM, on_alarm)
+    signal.setitimer(signal.ITIMER_REAL, seconds)
+    try:
+        return fn(arg)
+    finally:
+        signal.setitimer(signal.ITIMER_REAL, 0)
+        signal.signal(signal.SIGALRM, old)
+
+
 def evaluate(prop, cases):
     """run implementation and model on the cases; returns list of verdict dicts (same order)."""
     obs_list = []
+    deadline = getattr(prop, "CASE_TIMEOUT", 600)
     for c in cases:
         try:
-            obs_list.append(prop.run_impl(c))
+            obs_list.append(_with_deadline(prop.run_impl, c, deadline))
         except Exception as e:  # implementation raised on an input the generator considers valid
             obs_list.append({"__exception__": canon.exc_tag(e), "text": f"{type(e).__name__}: {e}"[:300],
                              "where": traceback.format_exc().strip().splitlines()[-3:]})
@@ -273,21 +294,27 @@ def run(prop, tier="quick", seed=0, replay=None, selftest=None):
         watch["error"] = f"{type(e).__name__}: {e}"[:200]
     verdicts = evaluate(prop, cases)
 
+    known = findings.load(pid)
+
+    def _unmatched(pairs):
+        return [(c, v) for c, v in pairs if findings.match(known, prop.signature(c, v["obs"], v)) is None]
+
     spec_fail = [(c, v) for c, v in zip(cases, verdicts) if not v["spec"]]
     corr_fail = [(c, v) for c, v in zip(cases, verdicts) if v["spec"] and not v["corr"]]
     search_cases = 0
-    if (broken or corr_fail) and not spec_fail:
+    # the deeper search runs whenever something no longer checks and no failing input has been found yet that
+    # is NOT already accounted for by a known finding (corpus cases of known findings are Spec-false by design)
+    if (broken or corr_fail) and not _unmatched(spec_fail):
         # failing-input search: a deeper sample with the Spec oracle evaluated on the implementation
         rng2 = random.Random(seed * 104729 + 99991)
         extra = list(prop.generate(rng2, max(n, prop.N_THOROUGH // 2), "thorough"))
         search_cases = len(extra)
         ev = evaluate(prop, extra)
-        spec_fail = [(c, v) for c, v in zip(extra, ev) if not v["spec"]]
+        spec_fail = spec_fail + [(c, v) for c, v in zip(extra, ev) if not v["spec"]]
         cases += extra
         verdicts += ev
 
     # ---- 3. findings matcher, replays, verdict lines --------------------------------------------
-    known = findings.load(pid)
     printed = set()
     new_fail = []
     for c, v in spec_fail:
